@@ -625,6 +625,10 @@ def monitor_case(pers, loader, obs):
                 if honoured or steps_all or new_keys or gone_keys or made:
                     bad(i, 'unknown-class-executed', 'the configured loader resolves the class; a task that fails does nothing else', o['line'])
                 continue
+            if not made and not loaded and reply == 'err:ValueError' and inert:
+                bad(i, 'wrong-loader', 'the configured object loader is the one used (it knows the class name of the checkpoint)',
+                    dict(saved_as=ident, loader_in_force=continue_loader, expected=run_cls, line=o['line']))
+                continue
             if made or len(loaded) != 1 or loaded[0][0] != pid:
                 bad(i, 'not-the-checkpoint', 'continue resumes exactly the persisted process of the requested pid',
                     dict(requested=key, line=o['line']))
